@@ -426,7 +426,7 @@ def extra_cases(chk: core.Check):
     # parsed after a report whose tables carry other (requested) units
     ref_ = geo.base_params(2, 1, 1, L=6, n=1)
     xdir = dict(geo.base_params(3, 1, 1, L=9, n=1))
-    xdir.update({'Units:Cumulative Revenue from Project': 'KUSD', 'Units:Annual Revenue from Project': 'KUSD', 'Units:Electricity Sale Price Model': 'USD/MWh'})
+    xdir.update({'Units:Cumulative Revenue from Project': 'KUSD', 'Units:Annual Revenue from Project': 'KUSD/yr'})
     out.append(('history/reference', ref_))
     out.append(('history/after-unit-directive', ('seq2', xdir, ref_)))
     bigrev = geo.base_params(2, 1, 1, L=30, n=1)
